@@ -319,6 +319,21 @@ def r4_r7(ctx, F):
             incs = [d for d in des if d[0] == 'bin' and d[1] == 'Add']
             if incs and all(('const', 1) in (d[2], d[3]) and any(x[0] == 'var' and x[2] == l for x in (d[2], d[3])) for d in incs) and len(incs) == 1:
                 inc_ok = True
+        # every follow-up page counts, whatever it contains: append and increment happen under the arm's own
+        # conditions only (an empty page is still page k)
+        arm_conds = {repr(c) for c in cond_exprs(prog, cl, bb0)}
+        sites = [apps[0].bb] if len(apps) == 1 else []
+        from sa.expr import defs as _defs
+        for l in idx_locals:
+            for d_ in _defs(cl).whole[l]:
+                de = ex(prog, cl).def_expr(d_)
+                if de[0] == 'bin' and de[1] == 'Add':
+                    sites.append(d_[0])
+        extra = [c for b_ in sites for c in cond_exprs(prog, cl, b_, hidden=False) if repr(c) not in arm_conds
+                 and not (c[0] == 'bin' and c[1].endswith('Overflow')) and not (c[0] == 'un' and P.has(lambda x: isinstance(x, tuple) and x[0] == 'overflow')(c))]
+        ctx.check(len(sites) >= 2 and not extra, 'R4', 'followup-every-page-counts', cl.where(bb0),
+                  'on the FollowUp arm the bytes are appended and the page index advanced unconditionally',
+                  'appending / counting a follow-up page depends on %s: a page for which it is false is requested again forever' % [show(c)[:80] for c in extra][:2])
         ctx.check(inc_ok, 'R4', 'followup-index-plus-one', cl.where(bb0), 'page index incremented by exactly 1 per follow-up', 'page index is not incremented by exactly 1 per follow-up')
         # completion test: the switch that decides Complete vs Partial on the FollowUp arm
         comp = None
